@@ -406,6 +406,37 @@ struct BearServer : BearEndpoint {
 	}
 };
 
+// In-place snapshot of a BearSSL endpoint (contexts and I/O buffers are
+// copied to side storage and back to the SAME addresses, so every internal
+// pointer stays valid).
+struct BearSnap {
+	Bytes ctx, xc, io, ib, ob;
+	bool was_closed = false, ever_ready = false, reset_ok = false;
+	int first_err = 0;
+};
+template <typename EP> inline void snap_save(EP &e, BearSnap &sn, void *ctx, size_t ctxlen)
+{
+	sn.ctx.assign((uint8_t *)ctx, (uint8_t *)ctx + ctxlen);
+	if (e.xc) sn.xc.assign((uint8_t *)e.xc.get(), (uint8_t *)e.xc.get() + sizeof(br_x509_minimal_context));
+	const Profile &p = e.prof;
+	if (p.layout == L_SPLIT) { sn.ib.assign(e.ibuf.get(), e.ibuf.get() + p.ilen); sn.ob.assign(e.obuf.get(), e.obuf.get() + p.olen); }
+	else sn.io.assign(e.iobuf.get(), e.iobuf.get() + p.buflen);
+	sn.was_closed = e.was_closed; sn.ever_ready = e.ever_ready; sn.reset_ok = e.reset_ok; sn.first_err = e.first_err;
+}
+template <typename EP> inline void snap_restore(EP &e, const BearSnap &sn, void *ctx)
+{
+	memcpy(ctx, sn.ctx.data(), sn.ctx.size());
+	if (e.xc && !sn.xc.empty()) memcpy((void *)e.xc.get(), sn.xc.data(), sn.xc.size());
+	if (!sn.ib.empty()) memcpy(e.ibuf.get(), sn.ib.data(), sn.ib.size());
+	if (!sn.ob.empty()) memcpy(e.obuf.get(), sn.ob.data(), sn.ob.size());
+	if (!sn.io.empty()) memcpy(e.iobuf.get(), sn.io.data(), sn.io.size());
+	e.was_closed = sn.was_closed; e.ever_ready = sn.ever_ready; e.reset_ok = sn.reset_ok; e.first_err = sn.first_err;
+}
+inline void snap_save(BearClient &c, BearSnap &sn) { snap_save(c, sn, c.sc.get(), sizeof(br_ssl_client_context)); }
+inline void snap_restore(BearClient &c, const BearSnap &sn) { snap_restore(c, sn, c.sc.get()); }
+inline void snap_save(BearServer &s, BearSnap &sn) { snap_save(s, sn, s.ss.get(), sizeof(br_ssl_server_context)); }
+inline void snap_restore(BearServer &s, const BearSnap &sn) { snap_restore(s, sn, s.ss.get()); }
+
 // ---------------------------------------------------------------- OpenSSL
 // deterministic RAND for the OpenSSL peer (so a case is a pure function of
 // its tape)
